@@ -1959,6 +1959,8 @@ def r14_default_port_follows_scheme(run):
             n_rows[cq] += 1
             if got == want and type(got) is type(want):
                 continue
+            if acc == 'port' and isinstance(got, str) and got.isdigit() and int(got) == want:
+                continue    # the right port in the wrong type: parse_host's result type is C10 R6's clause, not this one
             df, cons = _scheme_decider(p, cq, ev.trace, f) if acc != 'scheme' else (f, 'scheme of the request')
             d = problems.setdefault((df.qual, short(cons, 160) if isinstance(cons, ast.AST) else cons), {'f': df, 'cons': cons, 'wit': [], 'stacks': set()})
             d['stacks'].add(cq)
